@@ -577,6 +577,7 @@ def run(ctx):
     ctx.require('loss_mid_message_scenarios', 10)
     ctx.require('application_disconnect_scenarios', 10)
     ctx.require('non_blocking_poll_scenarios', 10)
+    ctx.require('non_blocking_polls_after_the_end', 10)
     ctx.require('calls_across_a_reconnection', 10)
     ctx.require('reconnections_needing_several_attempts', 10)
     ctx.extra['scenarios'] = {}
@@ -799,6 +800,9 @@ def after_disconnect_and_polls(ctx, k):
     n_ev = rng.randint(0, 3)
     n_read = rng.randint(0, n_ev)
     polls = rng.random() < 0.5
+    # after the end the application goes on reading with blocking calls or
+    # with non-blocking polls
+    t_after = rng.choice([1, 1, 0])
     h = E.make_client(kind, client_kw={'reconnection': rng.random() < 0.5})
     results = []
     after = []
@@ -843,7 +847,7 @@ def after_disconnect_and_polls(ctx, k):
                 await sc.disconnect()
                 for _ in range(n_ev - n_read + 1):
                     t0 = loop.time()
-                    await arec(after, sc.receive(timeout=1))
+                    await arec(after, sc.receive(timeout=t_after))
                     if after[-1][0] == 'TimeoutError' and \
                             loop.time() - t0 > 40:
                         after[-1] = ('blocks for ever', None)
@@ -881,7 +885,7 @@ def after_disconnect_and_polls(ctx, k):
                 h.call(sc.disconnect)
                 h.idle_hook = idle
                 for _ in range(n_ev - n_read + 1):
-                    rec(after, lambda: h.call(sc.receive, timeout=1))
+                    rec(after, lambda: h.call(sc.receive, timeout=t_after))
                 rec(after, lambda: h.call(sc.emit, 'x', 1))
                 rec(after, lambda: h.call(sc.call, 'x', 1, timeout=1))
     finally:
@@ -889,6 +893,7 @@ def after_disconnect_and_polls(ctx, k):
     w = {'part': 'after_disconnect_and_polls', 'case_index': k,
          'kind': kind, 'namespace': ns, 'events': n_ev,
          'read_before': n_read, 'non_blocking_polls': polls,
+         'receive_timeout_after_the_end': t_after,
          'results': jsonable(results), 'after_disconnect': jsonable(after),
          'errors': h.all_errors()[:3]}
     evs = [('ok', ['ev', i]) for i in range(n_ev)]
@@ -907,12 +912,20 @@ def after_disconnect_and_polls(ctx, k):
             return
     else:
         ctx.count('application_disconnect_scenarios')
+        if t_after == 0:
+            ctx.count('non_blocking_polls_after_the_end')
         want_after = evs[n_read:] + [('DisconnectedError', None)] * 3
         if results != evs[:n_read] or after != want_after:
-            ctx.violation(None, 'after the application called disconnect() '
-                          'with %d event(s) still buffered: receive x%d, '
-                          'emit, call gave %r' % (
-                              n_ev - n_read, n_ev - n_read + 1,
+            key = None
+            if kind == 'async' and t_after == 0 and results == evs[:n_read] \
+                    and after[:-3] == evs[n_read:] and \
+                    after[-3:] == [('TimeoutError', None)] + \
+                    [('DisconnectedError', None)] * 2:
+                key = 'async-poll-after-the-end-times-out'
+            ctx.violation(key, 'after the application called disconnect() '
+                          'with %d event(s) still buffered: receive'
+                          '(timeout=%r) x%d, emit, call gave %r' % (
+                              n_ev - n_read, t_after, n_ev - n_read + 1,
                               [r[0] if r[0] != 'ok' else r[1]
                                for r in after]), w)
             return
